@@ -46,7 +46,8 @@ def gen(rng, tier):
             cases.append(Case("pbkdf2 %s %s %s 1 %d" % (t, hexs(P), hexs(S), dk), "vec %s blocks>255" % t, True, spec="spec.pbkdf2 %s %s %s 1 %d" % (t, hexs(P), hexs(S), dk)))
             cases.append(Case("pbkdf2buf %s %s %s 1 %d" % (t, hexs(P), hexs(S), dk), "buf %s blocks>255" % t, True, spec="spec.pbkdf2buf %s %s %s 1 %d" % (t, hexs(P), hexs(S), dk)))
         # larger iteration counts (thorough): RFC 6070 style
-        for c in ([50] if tier == "quick" else [1000, 4096]):
+        # (65537 iterations: a 16-bit loop counter would wrap; the extracted model needs ~8 ms per iteration, so thorough tier, SHA-1 only)
+        for c in ([50] if tier == "quick" else ([1000, 4096, 65537] if t == "sha1" else [1000, 4096])):
             P = b"password"; S = b"saltSALTsaltSALTsalt"
             cases.append(Case("pbkdf2 %s %s %s %d %d" % (t, hexs(P), hexs(S), c, d + 5), "vec %s c=%d" % (t, c), True, spec="spec.pbkdf2 %s %s %s %d %d" % (t, hexs(P), hexs(S), c, d + 5)))
             cases.append(Case("pbkdf2buf %s %s %s %d %d" % (t, hexs(P), hexs(S), c, d + 5), "buf %s c=%d" % (t, c), True, spec="spec.pbkdf2buf %s %s %s %d %d" % (t, hexs(P), hexs(S), c, d + 5)))
@@ -56,6 +57,15 @@ def gen(rng, tier):
                 P = contents(rng, pl); S = contents(rng, rng.choice([1, 16, 20])); PEP = contents(rng, pepl); dk = rng.choice(dks)
                 cases.append(Case("pepper %s %s %s %s 2 %d" % (t, hexs(P), hexs(S), hexs(PEP), dk), "pepper %s %s pep%s" % (t, pcl(pl), pcl(pepl)[1:]), True,
                                   spec="spec.pepper %s %s %s %s 2 %d" % (t, hexs(P), hexs(S), hexs(PEP), dk)))
+        # coinciding operands: pepper == salt, password == salt, password == pepper (same bytes), and equal lengths with different bytes
+        for n in [1, 16, 32, b]:
+            X = contents(rng, n, "rand"); Y = contents(rng, n, "rand"); Z = contents(rng, n, "rand"); dk = rng.choice(dks)
+            for (P, S, PEP, cls) in [(Y, X, X, "pepper==salt"), (X, X, Y, "password==salt"), (X, Y, X, "password==pepper"), (X, X, X, "all-equal"), (X, Y, Z, "equal-lengths")]:
+                cases.append(Case("pepper %s %s %s %s 2 %d" % (t, hexs(P), hexs(S), hexs(PEP), dk), "pepper %s %s n=%d" % (t, cls, n), True,
+                                  spec="spec.pepper %s %s %s %s 2 %d" % (t, hexs(P), hexs(S), hexs(PEP), dk)))
+            cases.append(Case("pbkdf2 %s %s %s 2 %d" % (t, hexs(X), hexs(X), dk), "vec %s password==salt n=%d" % (t, n), True, spec="spec.pbkdf2 %s %s %s 2 %d" % (t, hexs(X), hexs(X), dk)))
+            if n >= 16:
+                cases.append(Case("pbkdf2buf %s %s %s 2 %d" % (t, hexs(X), hexs(X), dk), "buf %s password==salt n=%d" % (t, n), True, spec="spec.pbkdf2buf %s %s %s 2 %d" % (t, hexs(X), hexs(X), dk)))
         # rejected parameters (verdict agreement only; exactness is C11)
         for (S_, c, dk, cls) in [(b"", 1, 20, "empty-salt"), (b"salt", 0, 20, "c=0"), (b"salt", 1000001, 20, "c>limit"), (b"salt", 1, 0, "dk=0")]:
             cases.append(Case("pbkdf2 %s 7061 %s %d %d" % (t, hexs(S_), c, dk), "vec reject " + cls, False))
